@@ -34,13 +34,14 @@ import Thanos.Model.Capnp
 
   gate <entry> <cap> <steps>                                                       (C24)
       entry      h = receiveHTTP | o = receiveOTLPHTTP
-      cap        write.global.max_concurrency (≥ 1)
+      cap        write.global.max_concurrency (0 = no gate: the limiter keeps gate.NewNoop)
       steps      letters joined by `,`:  a  a request arrives (live context)
                                          x  a request arrives with a cancelled context — executed only
                                             while the gate is full (in-flight gauge ≥ cap), else skipped
                                          c  the context of the oldest request blocked at the gate is cancelled
+                                         k  the context of the oldest running request is cancelled (client gone)
                                          f  the oldest request inside the write path completes
-      answer     per step `running.waiting.gauge` (after the freed slots were taken by blocked requests),
+      answer     per step `running.waiting.gauge.total` (after the freed slots were taken by blocked requests),
                  joined by `,`, then ` p=<panics> max=<most requests inside the write path at once>`
 
   capnp.rt (t<hex> <series>*)+                                                     (C25)
@@ -237,6 +238,7 @@ def parseStep : String → Option Ev
   | "a" => some .arrive
   | "x" => some .arriveCancelled
   | "c" => some .cancel
+  | "k" => some .cancelRunning
   | "f" => some .finish
   | _ => none
 
@@ -244,7 +246,7 @@ def gateRun (doneFirst : Bool) (cap : Nat) (evs : List Ev) : String :=
   let (s, out) := evs.foldl (fun (acc : Gate.St × List String) e =>
     let s := acc.1
     let s' := scriptStep' doneFirst s e
-    (s', acc.2 ++ [s!"{s'.running}.{s'.waiting}.{s'.gauge}"])) (Gate.St.init cap, [])
+    (s', acc.2 ++ [s!"{s'.running}.{s'.waiting}.{s'.gauge}.{s'.total}"])) (Gate.St.init cap, [])
   s!"{joinWith "," out} p={s.panics} max={s.maxRunning}"
 
 end GateOps
@@ -361,7 +363,7 @@ def handle : List String → String
   | ["gate", entry, cap, steps] =>
     match parseNat? cap, (listOf ',' steps).mapM parseStep with
     | some cap, some evs =>
-      if cap = 0 ∨ evs.isEmpty then "bad-op"
+      if evs.isEmpty then "bad-op"
       else if entry = "h" then gateRun Gate.codeDoneFirstHTTP cap evs
       else if entry = "o" then gateRun Gate.codeDoneFirstOTLP cap evs
       else "bad-op"
